@@ -220,12 +220,9 @@ def check(run, prop):
                        "rpc_qdrop (Drop) is outside the properties' alphabets but modelled, tied and generated for all three (since b6f8314 waitjobs forgets a dropped "
                        "job's id only while it still names the waited-for object; the Coq theorems quantify over the full alphabet incl. Drop/Watchdog); "
                        "dropdead (Watchdog) is generated for C18 and inside the drop family",
-                       "KNOWN DEFECT of the real code, excluded from generation until /verif/fixes/C17-wait-lost-wakeup.diff is in /repo: a client that starts waiting on an "
-                       "already finished job while gevent's finish notifier is still pending is NEVER released if every earlier waiter's connection drops before the "
-                       "notifier runs (gevent 26.8 unlink() cancels the notifier together with the late waiters registered on it; history A 0 0 - -;W 1 a1;D 1;K 7 a1;W 5 a1;L). "
-                       "The model (and the Coq liveness theorems C17_runloop_releases / C17_wait_ends_by_release_or_death) say: released in that loop turn. The generators "
-                       "(c16_common.avoid_lost_wakeup_corner) produce no Wait on a connection whose disconnect is pending and no Wait between a job-finishing op and the next "
-                       "RunLoop while a disconnect is pending; the enumerator's Wait ops come from client connections that never disconnect"]
+                       "Wait on a finished job returns at once also while the finish notifier of earlier waiters is pending (a8ac510; before, such a late client was never "
+                       "released when the earlier waiters' connections dropped first: A 0 0 - -;W 1 a1;D 1;K 7 a1;W 5 a1;L - found by this check's drop family, now generated again "
+                       "and in corpus/C17/late-waiter-after-dropped-waiter.json)"]
     src = core.snapshot(need_ext=False)
     run.check_proofs(prop, dirs=PROOF_DIRS[prop])
     exe = build()
